@@ -60,6 +60,7 @@ type Journal struct {
 }
 
 var lineRe = regexp.MustCompile(`^(\d+)\s+(.*)$`)
+var retRe = regexp.MustCompile(`\)\s+= `)
 
 // Parse reads a strace -f -y -xx journal.
 func Parse(path string) ([]Event, error) {
@@ -119,13 +120,15 @@ func parseCall(s string) (Event, bool) {
 	}
 	ev.Name = s[:i]
 	// find the matching ") = " from the right
-	j := strings.LastIndex(s, ") = ")
-	if j < 0 {
+	// (resumed calls are printed as ")             = 0" with padding)
+	locs := retRe.FindAllStringIndex(s, -1)
+	if len(locs) == 0 {
 		// e.g. exit_group(0) = ?
 		return ev, false
 	}
+	j, jend := locs[len(locs)-1][0], locs[len(locs)-1][1]
 	argstr := s[i+1 : j]
-	ret := strings.TrimSpace(s[j+4:])
+	ret := strings.TrimSpace(s[jend:])
 	ev.RetStr = ret
 	ev.Args = splitArgs(argstr)
 	if strings.HasPrefix(ret, "-1") || strings.HasPrefix(ret, "?") {
